@@ -1,30 +1,33 @@
 import Girc.Spec.FormatSpec
+import Girc.Proofs.FormatFmt
+import Girc.Proofs.FormatStrip
+import Girc.Proofs.FormatTrim
 namespace Girc.Proofs.Format
 open Girc Girc.Model Girc.Spec
 
 theorem fmt_compositional (items : List Item) (h : items.all wfItem = true) : fmt (src items) = out items := by
-  sorry
+  exact fmtScan_src items h
 
 theorem fmt_id (t : Bytes) (h : braceFree t = true) : fmt t = t := by
-  sorry
+  exact fmt_id_aux t h
 
 /-- For EVERY iteration order of the token maps. -/
 theorem trimfmt_exact (order : List Bytes) (hperm : order.Perm tokenNames) (items : List Item)
     (h : items.all wfItem = true) :
     trimFmt order (src items) = src (items.filter (fun it => !isLowerToken it)) := by
-  sorry
+  exact trimfmt_exact_aux order hperm items h
 
 theorem strip_clean (t : Bytes) : ∀ b ∈ stripRaw t, b ∉ codeBytes := by
-  sorry
+  exact strip_clean_aux t
 
 theorem strip_id (t : Bytes) (h : hasCodeByte t = false) : stripRaw t = t := by
-  sorry
+  exact strip_id_aux t h
 
 theorem strip_idem (t : Bytes) : stripRaw (stripRaw t) = stripRaw t := by
-  sorry
+  exact strip_idem_aux t
 
 theorem strip_fmt (items : List Item) (h : items.all wfItem = true) (hl : literalsCodeFree items = true)
     (hd : noDigitAfterColor items = true) : stripRaw (fmt (src items)) = literals items := by
-  sorry
+  exact strip_fmt_aux items h hl hd
 
 end Girc.Proofs.Format
